@@ -484,8 +484,9 @@ def r7b(ctx):
 
 
 def r8(ctx):
-    from . import c09
+    from . import c09, c02
     c09.loops_can_exit(ctx, P, "C06.R8", [OPLOG_OPEN])
+    c02.r8c(ctx, P, "C06.R8")
     fo = ctx.fn(OPLOG_OPEN)
     if need(ctx, P, "C06.R8", OPLOG_OPEN, fo):
         vl = [s for s in sites(fo, VALIDATE_LEADER) if any(s in body for _, body, _ in fo.loops())]
